@@ -57,6 +57,10 @@ type ClSpec struct {
 	Stable     bool                 `json:"stable,omitempty"`    // no topology change, all views consistent
 	FaultFree  bool                 `json:"fault_free,omitempty"` // no connection faults
 	Preload    [][]string           `json:"preload,omitempty"`   // ghost commands executed at the key's owner before the client exists
+	// Cancel: batches are abandoned (cancelled at a seeded step) while their commands are still queued behind a
+	// bounded socket send buffer; the caller goes on building new commands at once (C33)
+	Cancel  bool `json:"cancel,omitempty"`
+	SendBuf int  `json:"send_buf,omitempty"`
 }
 
 type ClusterPlan struct {
@@ -120,8 +124,9 @@ func genCluster(seed uint64, tier, variant string) any {
 	if mode == "" {
 		mode = pick(r, "stable", "stable", "change", "change", "faults")
 	}
-	cl.Stable = mode == "stable" || mode == "replicas" || mode == "helpers"
+	cl.Stable = mode == "stable" || mode == "replicas" || mode == "helpers" || mode == "cancel" || mode == "dedicated"
 	cl.FaultFree = mode != "faults"
+	cl.Cancel = mode == "cancel"
 	// topology: 2-4 shards, 0-2 replicas each
 	nsh := 2 + r.IntN(3)
 	total := 0
@@ -308,6 +313,27 @@ func genCluster(seed uint64, tier, variant string) any {
 			if mode == "helpers" {
 				x = 80 + r.IntN(20)
 			}
+			if mode == "cancel" {
+				x = pick(r, 10, 30, 45, 50, 55) // single commands and batches only
+			}
+			if (mode == "dedicated" && r.IntN(2) == 0) || (mode == "stable" && r.IntN(12) == 0) {
+				// a dedicated session on one slot, then use of the retained handle after its release
+				ki := r.IntN(len(ks))
+				c = CallSpec{Kind: "dedic", S: pick(r, "cancel", "fn")}
+				for k, m := 0, 1+r.IntN(4); k < m; k++ {
+					key := keyOf(ki, "d"+strconv.Itoa(r.IntN(3)))
+					if r.IntN(2) == 0 {
+						c.Cmds = append(c.Cmds, CmdSpec{Argv: []string{"VWTAG", key, uid(k)}, Keys: 1})
+					} else {
+						c.Cmds = append(c.Cmds, CmdSpec{Argv: []string{"VKTAG", key, uid(k), "s"}, Keys: 1, Flag: "ro"})
+					}
+				}
+				// the commands issued through the retained handle after release (must never reach a server)
+				c.Cmds = append(c.Cmds, CmdSpec{Argv: []string{"VWTAG", keyOf(ki, "d0"), uid(90)}, Keys: 1}, CmdSpec{Argv: []string{"VKTAG", keyOf(ki, "d1"), uid(91), "s"}, Keys: 1, Flag: "ro"})
+				c.N = len(c.Cmds) - 2
+				calls = append(calls, c)
+				continue
+			}
 			switch {
 			case x < 25:
 				c = CallSpec{Kind: "do", Cmds: []CmdSpec{rd(0)}}
@@ -397,6 +423,9 @@ func genCluster(seed uint64, tier, variant string) any {
 				key := keyOf(r.IntN(len(ks)), "m."+uid(0))
 				c.Cmds = []CmdSpec{{Argv: []string{key, "v:" + key + ":" + uid(0)}}}
 			}
+			if cl.Cancel && (c.Kind == "multi" || c.Kind == "do") && r.IntN(2) == 0 {
+				c.Cancel, c.CancelAfter = true, r.IntN(6)
+			}
 			if !cl.FaultFree && r.IntN(8) == 0 {
 				// (deadlines only where faults are allowed anyway: a caller whose deadline ends during a dial it shares
 				// with other callers makes their attempt fail too, an invisible fault for the redirect-chain rules)
@@ -405,6 +434,13 @@ func genCluster(seed uint64, tier, variant string) any {
 			calls = append(calls, c)
 		}
 		p.Tasks = append(p.Tasks, calls)
+	}
+	if cl.Cancel {
+		cl.SendBuf = pick(r, 64, 256, 1024)
+		p.Opt.WriteBuf = pick(r, 32, 64, 512)
+		p.Opt.AlwaysPipelining = true
+		p.Sched.C2SCutProb = 0.5
+		p.Sched.MaxSteps = 20000
 	}
 	// environment
 	if !cl.Stable {
@@ -822,6 +858,11 @@ func execCluster(t *testing.T, plan any, out *Outcome) {
 			ce = &clusterEnv{env: e, cp: cp}
 			muxRegReset(16)
 			richIdent.Store(true)
+			e.sim.SortLockers = true
+			if cp.Cl.SendBuf > 0 {
+				sb := cp.Cl.SendBuf
+				e.sim.OnAccept = func(s *sched.Sim, l *sched.Link) { l.C.SetSendBuffer(sb) }
+			}
 			enableSpinSettle(e.sim)
 			e.sim.Cfg.TickEpsilon = time.Nanosecond // a scheduler tick never ends exactly on a client timer's instant
 			ce.build()
@@ -934,6 +975,27 @@ func clusterHelperCall(e *env, cl Client, cs CallSpec, ctx context.Context, rec 
 		}
 	}
 	switch cs.Kind {
+	case "dedic":
+		n := cs.N
+		var dc DedicatedClient
+		session := func(d DedicatedClient) {
+			dc = d
+			for _, c := range cs.Cmds[:n] {
+				r.Res = append(r.Res, toRes(d.Do(ctx, buildCmd(d.B(), c))))
+			}
+		}
+		if cs.S == "fn" {
+			_ = cl.Dedicated(func(d DedicatedClient) error { session(d); return nil })
+		} else {
+			d, cancel := cl.Dedicate()
+			session(d)
+			cancel()
+		}
+		// use after release: Do and DoMulti through the retained handle
+		r.Res = append(r.Res, toRes(dc.Do(ctx, buildCmd(dc.B(), cs.Cmds[n]))))
+		for _, x := range dc.DoMulti(ctx, buildCmd(dc.B(), cs.Cmds[n+1])) {
+			r.Res = append(r.Res, toRes(x))
+		}
 	case "mget":
 		conv(MGet(cl, ctx, cs.Cmds[0].Argv))
 	case "mgetcache":
@@ -1050,6 +1112,43 @@ func (ce *clusterEnv) judge() {
 		}
 		return false, any
 	}
+	// ---- C33: every command frame a node decoded is exactly an argv the plan built (or one of the client's own) ----
+	if cl.Cancel {
+		planned := map[string]bool{}
+		for _, calls := range ce.cp.Tasks {
+			for _, c := range calls {
+				for _, cm := range c.Cmds {
+					planned[argvKey(cm.Argv)] = true
+				}
+			}
+		}
+		for _, pe := range w.ProtoErrors {
+			out.violate("C33", "malformed-or-emptied-frame", "%s", pe)
+		}
+		for _, ex := range w.Log {
+			if ex.Conn < 0 || len(ex.Argv) == 0 {
+				continue
+			}
+			switch strings.ToUpper(ex.Argv[0]) {
+			case "VKTAG", "VWTAG":
+				if !planned[argvKey(ex.Argv)] {
+					out.violate("C33", "frame-nobody-built", "node %s decoded %q, which no task built", ex.Node, truncArgv(ex.Argv))
+				}
+			}
+		}
+		abandoned := 0
+		for _, t := range s.Tasks {
+			for _, rc := range t.Recs {
+				if rc.CancelStep >= 0 {
+					abandoned++
+				}
+			}
+		}
+		if abandoned > 0 {
+			out.probe("call-abandoned-before-reply")
+		}
+		out.judged("frames-checked")
+	}
 	redirectsTotal := 0
 	for _, k := range []string{"MOVED", "ASK"} {
 		redirectsTotal += ce.cluster.Redirects[k]
@@ -1083,6 +1182,9 @@ func (ce *clusterEnv) judge() {
 		ctxEnded := rec.CancelStep >= 0 || (spec.TimeoutMs > 0 && !rec.Deadline.IsZero() && !rec.EndAt.Before(rec.Deadline))
 		switch spec.Kind {
 		case "do", "multi", "cache", "mcache":
+		case "dedic":
+			ce.judgeDedicated(task, spec, rec, res, arrivals, faultFree && !ctxEnded)
+			return
 		default:
 			ce.judgeHelper(task, spec, rec, res, faultFree && !ctxEnded)
 			return
@@ -1122,6 +1224,9 @@ func (ce *clusterEnv) judge() {
 			if r.Err != "" {
 				if (r.ErrKind == "ctx-deadline" || r.ErrKind == "ctx-canceled") && (spec.TimeoutMs > 0 || rec.CancelStep >= 0) {
 					out.judged("ctx-error")
+				} else if (r.ErrKind == "ctx-deadline" || r.ErrKind == "ctx-canceled") && cl.Cancel {
+					// another caller's cancellation ended a dial this call was sharing
+					out.notJudged("context-error-of-a-shared-dial")
 				} else if faultFree && !ctxEnded && cl.Stable {
 					out.violate(prop, "unexpected-error", "task %d call %d cmd %d %q: error %q in a stable, fault-free plan", task, rec.Index, i, truncArgv(argv), r.Err)
 				} else {
@@ -1435,6 +1540,50 @@ func failoverBefore(s *sched.Sim, step int) bool {
 		}
 	}
 	return false
+}
+
+// judgeDedicated (C25, cluster part): the session's commands travel on one connection; calls through the handle after
+// its release fail with ErrDedicatedClientRecycled and never reach a server.
+func (ce *clusterEnv) judgeDedicated(task int, spec CallSpec, rec *sched.CallRec, res *CallResult, arrivals map[string][]*clAttempt, strict bool) {
+	out := ce.out
+	n := spec.N
+	if len(res.Res) != len(spec.Cmds) {
+		out.violate("C25", "result-count", "task %d call %d dedicated session: %d results for %d commands", task, rec.Index, len(res.Res), len(spec.Cmds))
+		return
+	}
+	conn := -1
+	for i, c := range spec.Cmds[:n] {
+		uid, _ := uidOf(c.Argv)
+		for _, a := range arrivals[uid] {
+			if a.redirect != "" {
+				continue
+			}
+			if conn >= 0 && a.ex.Conn != conn && strict {
+				out.violate("C25", "session-split", "task %d call %d: commands of one dedicated cluster session reached connections %d and %d", task, rec.Index, conn, a.ex.Conn)
+			}
+			conn = a.ex.Conn
+		}
+		if r := res.Res[i]; r.Err == "" && r.V.T != '-' && r.V.T != '!' {
+			// (error replies, e.g. MOVED for a write a ReplicaOnly client sent to a replica, are the caller's to handle:
+			// a dedicated client does not follow redirects)
+			if exp, ok := expectedReply(c.Argv); ok && !valEqual(normalize(exp, 3), r.V) && strict {
+				out.violate("C25", "wrong-reply", "task %d call %d cmd %d %q in a dedicated cluster session: got %s", task, rec.Index, i, truncArgv(c.Argv), truncStr(r.V.String(), 200))
+			}
+		}
+	}
+	for i := n; i < len(spec.Cmds); i++ {
+		uid, _ := uidOf(spec.Cmds[i].Argv)
+		r := res.Res[i]
+		if len(arrivals[uid]) > 0 {
+			out.violate("C25", "sent-after-release", "task %d call %d: %q, issued through a dedicated cluster client after its release, reached %s", task, rec.Index, truncArgv(spec.Cmds[i].Argv), attemptNodes(arrivals[uid]))
+		}
+		if !strings.Contains(r.Err, ErrDedicatedClientRecycled.Error()) {
+			out.violate("C25", "use-after-release", "task %d call %d: %q through a released dedicated cluster client returned %q / %s instead of ErrDedicatedClientRecycled", task, rec.Index, truncArgv(spec.Cmds[i].Argv), r.Err, truncStr(r.V.String(), 80))
+		} else {
+			out.judged("use-after-release-refused")
+		}
+	}
+	out.probe("dedicated-cluster-session")
 }
 
 func hasSlotless(cmds []CmdSpec) bool {
